@@ -242,7 +242,7 @@ def check_poly_division(facts, rep):
             rep.indet('E3.P1: division step outside the recognised fragment: %s' % diff)
     shapes = set()
     rng = set()
-    for p in SymEx(b, max_paths=2000).run():
+    for p in SymEx(b, max_paths=2000, inline=False).run():
         if p.end != 'return':
             continue
         n_iter = sum(1 for e in p.calls() if e.name.endswith('{closure#0}') or e.name == c.defp or (e.call is not None and (e.call.callee or '') == c.defp))
@@ -258,7 +258,7 @@ def check_poly_division(facts, rep):
     # skips the steps that produce the low-order terms of the quotient when the divisor has degree 0
     early = []
     try:
-        for p in SymEx(b, havoc_loops=True, max_paths=4000).run():
+        for p in SymEx(b, havoc_loops=True, max_paths=4000, inline=False).run():
             if p.end != 'return':
                 continue
             nx = [(dk(e.term), e.value) for e in p.branches() if dk(e.term).startswith('discr(next(')]
